@@ -137,22 +137,25 @@ def gen_cases(rng: random.Random, tier: str):
                     for ha in H_ALIGNS:
                         for va in V_ALIGNS:
                             for alpha in ALPHAS:
-                                W = rng.randrange(3, MAXW + 1)
-                                H = rng.randrange(2, MAXH + 1)
-                                yield make_case(rng, "block", ident, sizing, upscale, ha, va,
-                                                alpha, W, H, rng.randrange(1, W + 2),
-                                                rng.randrange(1, H + 2))
+                                for _ in range(3):
+                                    W = rng.randrange(3, MAXW + 1)
+                                    H = rng.randrange(2, MAXH + 1)
+                                    yield make_case(rng, "block", ident, sizing, upscale, ha,
+                                                    va, alpha, W, H, rng.randrange(1, W + 2),
+                                                    rng.randrange(1, H + 2))
         for style in ("kitty", "iterm2"):
             for ident in GFX_IDENTS[style]:
                 for sizing in ("box", "flow"):
                     for upscale in (False, True):
                         for ha in H_ALIGNS:
                             for va in V_ALIGNS:
-                                W = rng.randrange(2, 8)
-                                H = rng.randrange(2, 6)
-                                yield make_case(rng, style, ident, sizing, upscale, ha, va,
-                                                rng.choice(ALPHAS), W, H,
-                                                rng.randrange(1, W + 1), rng.randrange(1, H + 1))
+                                for _ in range(2):
+                                    W = rng.randrange(2, 8)
+                                    H = rng.randrange(2, 6)
+                                    yield make_case(rng, style, ident, sizing, upscale, ha, va,
+                                                    rng.choice(ALPHAS), W, H,
+                                                    rng.randrange(1, W + 1),
+                                                    rng.randrange(1, H + 1))
         return
     # 4. quick: random block canvases until the budget is used up
     while True:
